@@ -133,6 +133,8 @@ type stageJob struct {
 	// CancelFirst: the start-up is first attempted with an already cancelled context (the process is told to stop
 	// while it loads: SIGTERM during start) and abandoned, then the store is started normally on the same directory
 	CancelFirst bool `json:"cancel_first,omitempty"`
+	// DeleteAll: after the start, every fraction is deleted the way retention deletes it (Suicide); nothing else
+	DeleteAll bool `json:"delete_all,omitempty"`
 	// Big: the large-block history. BigIngest: this stage ingests [bulk 1, the big bulk, bulk 2]; the answer lists only
 	// the documents of these three bulks that are not served correctly.
 	Big       bool `json:"big,omitempty"`
@@ -251,6 +253,13 @@ func c01Handle(raw json.RawMessage) any {
 	if err := fm.Load(context.Background()); err != nil {
 		res.LoadErr = err.Error()
 		res.Journal = vos.Journal()
+		return res
+	}
+	if job.DeleteAll {
+		for _, f := range fm.GetAllFracs() {
+			f.Suicide()
+		}
+		vos.SetRoot("")
 		return res
 	}
 	if job.Big {
